@@ -223,6 +223,7 @@ let () =
           ch_tie = (match first_out "I" with Some (fc, _) -> Some (n_of_dec fc) | None -> None);
           ch_cs = (match first_out "D" with Some (_, nm) -> Some (name_of_string nm) | None -> None);
           ch_expired = (match pick "expired" with Some "-" | None -> [] | Some s -> List.map n_of_dec (String.split_on_char ',' s)) } in
+        let pre_ok = not !diverged in   (* the model state before this event has been validated against the implementation *)
         let pre_ws = !ws in
         let pre k = List.nth pre_ws k in
         let pre0 = pre 0 in
@@ -347,7 +348,7 @@ let () =
            | _ ->
                if outs_impl <> [] then Printf.printf "ORACLE C01 %s %d spontaneous | an event that is not a packet arrival emitted packets: [%s]\n" caseid !evno outs_impl_str)
         end;
-        if want "C02" && not !diverged then begin
+        if want "C02" && pre_ok then begin
           (match we with
            | WPacket (EInterest (now, i)) ->
                let k = thr_of_name i.i_name in
